@@ -1,6 +1,7 @@
 package main
 
 import (
+	"crypto/tls"
 	"fmt"
 
 	"github.com/bluenviron/gortsplib/v5"
@@ -17,6 +18,9 @@ type StartJob struct {
 	Field string `json:"field"` // max-packet-size | write-queue-size
 	From  int    `json:"from"`
 	To    int    `json:"to"`
+	// Variant: the other options of the object. client: "" | tcp | udp | mcast | http-tunnel | ws-tunnel | rtsps;
+	// server: "" (UDP) | noudp | tls. The limit does not depend on any of them.
+	Variant string `json:"variant,omitempty"`
 }
 
 // StartOut is the result of a start job.
@@ -37,7 +41,7 @@ func wantAccepted(field string, v int) bool {
 }
 
 // startOnce starts and closes one object; it returns the Start error (nil = accepted).
-func startOnce(env *sysx.Env, side, field string, v int) (err error, panicked any) {
+func startOnce(env *sysx.Env, side, field, variant string, v int) (err error, panicked any) {
 	defer func() {
 		if r := recover(); r != nil {
 			panicked = r
@@ -45,7 +49,10 @@ func startOnce(env *sysx.Env, side, field string, v int) (err error, panicked an
 	}()
 	switch side {
 	case "server":
-		s, _, e := env.StartServer(sysx.ServerOpts{UDP: true, NoStream: true, Tweak: func(s *gortsplib.Server) {
+		s, _, e := env.StartServer(sysx.ServerOpts{UDP: variant != "noudp", NoStream: true, Tweak: func(s *gortsplib.Server) {
+			if variant == "tls" {
+				s.TLSConfig = &tls.Config{Certificates: []tls.Certificate{selfSigned()}}
+			}
 			if field == "max-packet-size" {
 				s.MaxPacketSize = v
 			} else {
@@ -65,6 +72,24 @@ func startOnce(env *sysx.Env, side, field string, v int) (err error, panicked an
 		}
 	case "client":
 		c := env.NewClient(func(c *gortsplib.Client) {
+			switch variant {
+			case "tcp":
+				p := gortsplib.ProtocolTCP
+				c.Protocol = &p
+			case "udp":
+				p := gortsplib.ProtocolUDP
+				c.Protocol = &p
+			case "mcast":
+				p := gortsplib.ProtocolUDPMulticast
+				c.Protocol = &p
+			case "http-tunnel":
+				c.Tunnel = gortsplib.TunnelHTTP
+			case "ws-tunnel":
+				c.Tunnel = gortsplib.TunnelWebSocket
+			case "rtsps":
+				c.Scheme = "rtsps"
+				c.TLSConfig = &tls.Config{InsecureSkipVerify: true}
+			}
 			if field == "max-packet-size" {
 				c.MaxPacketSize = v
 			} else {
@@ -90,10 +115,10 @@ func runStart(j StartJob) (out StartOut) {
 	env := sysx.NewEnv()
 	oc := map[string]bool{}
 	for v := j.From; v <= j.To; v++ {
-		err, pn := startOnce(env, j.Side, j.Field, v)
+		err, pn := startOnce(env, j.Side, j.Field, j.Variant, v)
 		out.Evals++
 		want := wantAccepted(j.Field, v)
-		det := map[string]any{"start": StartJob{j.Side, j.Field, v, v}, "value": v}
+		det := map[string]any{"start": StartJob{j.Side, j.Field, v, v, j.Variant}, "value": v}
 		switch {
 		case pn != nil:
 			det["panic"] = fmt.Sprint(pn)
